@@ -81,6 +81,56 @@ Theorem C31_squash_only_boundaries :
 Proof. exact squash_only_boundaries. Qed.
 Print Assumptions C31_squash_only_boundaries.
 
-Theorem C31_oracle_on_model : forall i, oracle i (model_obs i) = true.
-Proof. exact oracle_on_model. Qed.
-Print Assumptions C31_oracle_on_model.
+Theorem C31_get_resolved :
+  forall h b o t k,
+  get k (resolved h b o t) = match merge_row (get k b) (get k o) (get k t) with
+                             | MOk v => v
+                             | MConflict => pick_side h (get k o) (get k t)
+                             end.
+Proof. exact get_resolved. Qed.
+Print Assumptions C31_get_resolved.
+
+Theorem C31_merge_proc_spec :
+  forall m b o t,
+  match merge_proc m b o t with
+  | QOk d => is_merge3 b o t d
+  | QNoChange => is_merge3 b o t o
+  | QConflict => has_conflict b o t /\ m = Stop
+  | QResolved d => has_conflict b o t /\ exists h, m = Resolve h /\ is_resolved h b o t d
+  | QAborted d => has_conflict b o t /\ m = Abort /\ d = norm o
+  end.
+Proof. exact merge_proc_spec. Qed.
+Print Assumptions C31_merge_proc_spec.
+
+Theorem C31_abort_restores :
+  forall b o t edits, abort_op (fold_left apply_uedit edits (start_paused b o t)) = Some (clean_state o).
+Proof. exact abort_restores. Qed.
+Print Assumptions C31_abort_restores.
+
+Theorem C31_rebase2_is_fold :
+  forall m orig onto p,
+  match run_plan2 m orig onto p with
+  | R2Ok s _ => valid_plan p = true /\ exists d, fold_picks2 m onto (kept p) = Some d /\ ext_eq (r_head s) d
+  | R2Conflict => valid_plan p = true /\ m = Stop /\ fold_picks2 m onto (kept p) = None
+  | R2Aborted d => valid_plan p = true /\ m = Abort /\ d = orig /\ fold_picks2 m onto (kept p) = None
+  | R2Invalid => valid_plan p = false
+  end.
+Proof. exact rebase2_is_fold. Qed.
+Print Assumptions C31_rebase2_is_fold.
+
+Theorem C31_rebase_abort_restores :
+  forall orig onto p d, run_plan2 Abort orig onto p = R2Aborted d -> d = orig.
+Proof. exact rebase_abort_restores. Qed.
+Print Assumptions C31_rebase_abort_restores.
+
+Theorem C31_smerge_proc_same_schema :
+  forall m s b o t, smerge_proc m s s s b o t = (s, merge_proc m b o t).
+Proof. exact smerge_proc_same_schema. Qed.
+Print Assumptions C31_smerge_proc_same_schema.
+
+(* full statement: forall i, oracle i (model_obs i) = true; proved for commit trees of one schema
+   (what is missing for schema-changing commits is listed in C31/Proofs.v) *)
+Theorem C31_oracle_on_model_partial :
+  forall cs ops, one_schema cs -> oracle (cs, ops) (model_obs (cs, ops)) = true.
+Proof. exact oracle_on_model_partial. Qed.
+Print Assumptions C31_oracle_on_model_partial.
